@@ -15,6 +15,7 @@ def run(prog, rep, tier):
                    "exactly once, in module and table order, numbered 0,1,2,..., each with the index, name and GElf_Sym that libdwfl returned "
                    "for that very entry, raise no error on readable tables and stay exhausted afterwards.")
     rep.not_decided = "how libdwfl itself enumerates modules and tables; the rendering of name/value/size by the CLI."
+    apply(rep, "W4", "name, label, binding, visibility, address, size report the stored fields, type and binding in the family of the file's machine (source evaluation; GELF_ST_* macros interpreted)", r_elf.w4(prog), 6)
     apply(rep, "W3", "every symbol-table entry exactly once, in order, numbered from zero (source evaluation of symbol_producer on abstract module tables)", r_elf.w3(prog, tier), 1)
     apply(rep, "W2b", "ELF-domain constants built from symbol fields go through the matching extraction macro", r_elf.w2b(prog), 5)
     apply(rep, "W2", "GELF_ST_* macro paired with its domain and the symbol's machine", r_elf.w2(prog), 6)
